@@ -755,6 +755,12 @@ impl Prop for Session {
                 lookalike = true;
             }
             sides.insert(cur.side);
+            // sometimes the engine is asked for its move first (book, then search): what it
+            // caches must not change the listing
+            if i % 5 == 2 && legal.len() <= 14 {
+                let _ = game.select_waterfall_book_then_alpha_beta_best_move();
+                st.count("engine_asked_before_listing", 1);
+            }
             // the listing the loops print every turn
             let listed = game.enumerated_candidate_moves();
             let got: Vec<(Mv, String)> = listed.iter().map(|(m, s)| (mv_of(m), s.clone())).collect();
